@@ -407,13 +407,56 @@ func c14GenPipe(r *rand.Rand, id int) (string, any, bool) {
 	})
 	defer up.Close()
 	pool := 1 + r.Intn(3)
-	prom := promapi.C14StartPipeline(up.URL, pool, time.Hour, func() time.Time { return c14Base })
+	// injected clock: it advances between calls; gc runs between calls.  TTLs are those of the real query types.
+	var clock atomic.Int64
+	maxStale := []time.Duration{30 * time.Second, 3 * time.Minute, time.Hour}[r.Intn(3)]
+	prom := promapi.C14StartPipeline(up.URL, pool, maxStale, func() time.Time { return c14Base.Add(time.Duration(clock.Load())) })
 	defer prom.Close()
+	tInstant, tConfig, tFlags, tMeta := promapi.C14TTLs()
+	ttls := []time.Duration{tInstant, tInstant, tConfig, tFlags, tMeta, tMeta} // per question of `questions`
 	n := 6 + r.Intn(14)
 	calls := make([]c14PipeCall, n)
+	var ops []string
+	var opsJSON []any
+	lastSet := map[int]int64{} // question -> clock value of its last successful request
 	hit := false
 	ctx := context.Background()
 	for i := range calls {
+		// time passes: small steps, and jumps exactly onto / 1 ns before / 1 ns after an entry's expiry or staleness instant
+		if r.Intn(5) < 2 {
+			var d int64
+			switch r.Intn(6) {
+			case 0:
+				d = int64(time.Duration(1+r.Intn(50)) * time.Second)
+			case 1:
+				d = int64(maxStale) + int64(r.Intn(3)) - 1
+			case 2, 3:
+				if len(lastSet) > 0 {
+					qs := make([]int, 0, len(lastSet))
+					for q := range lastSet {
+						qs = append(qs, q)
+					}
+					sort.Ints(qs)
+					q := qs[r.Intn(len(qs))]
+					d = lastSet[q] + int64(ttls[q]) + int64(r.Intn(3)) - 1 - clock.Load()
+				}
+			case 4:
+				d = int64(time.Duration(1+r.Intn(12)) * time.Minute)
+			default:
+				d = int64(r.Intn(3))
+			}
+			if d < 0 {
+				d = 0
+			}
+			clock.Add(d)
+			ops = append(ops, fmt.Sprintf("PTick %s", coqZ(d)))
+			opsJSON = append(opsJSON, map[string]any{"tick_ns": d})
+		}
+		if r.Intn(3) == 0 {
+			left := prom.C14Gc()
+			ops = append(ops, fmt.Sprintf("PGc %d", left))
+			opsJSON = append(opsJSON, map[string]any{"gc_entries_left": left})
+		}
 		c := &calls[i]
 		c.Q = r.Intn(len(questions))
 		c.Fail = r.Intn(4) == 0
@@ -458,15 +501,19 @@ func c14GenPipe(r *rand.Rand, id int) (string, any, bool) {
 			fmt.Sscanf(res, "%d", &c.Value)
 			if !c.Asked {
 				hit = true
+			} else {
+				lastSet[c.Q] = clock.Load()
 			}
 		}
+		ops = append(ops, fmt.Sprintf("PCall (mk_pcall %d %s %s %s %d)", c.Q, coqBool(c.Fail), coqBool(c.Asked), coqBool(c.OK), c.Value))
+		opsJSON = append(opsJSON, *c)
 	}
-	terms := make([]string, n)
-	for i, c := range calls {
-		terms[i] = fmt.Sprintf("mk_pcall %d %s %s %s %d", c.Q, coqBool(c.Fail), coqBool(c.Asked), coqBool(c.OK), c.Value)
+	tt := make([]string, len(ttls))
+	for i, t := range ttls {
+		tt[i] = coqZ(int64(t))
 	}
-	term := fmt.Sprintf("PipeCase %s %d %s", coqN(id), pool, coqList(terms))
-	return term, map[string]any{"kind": "pipeline", "pool": pool, "calls": calls}, hit
+	term := fmt.Sprintf("PipeCase %s %d %s %s %s", coqN(id), pool, coqZ(int64(maxStale)), coqList(tt), coqList(ops))
+	return term, map[string]any{"kind": "pipeline", "pool": pool, "max_stale_ns": int64(maxStale), "ttl_ns": ttls, "ops": opsJSON}, hit
 }
 
 // ---------------------------------------------------------------------------------------------
